@@ -33,7 +33,7 @@ def qrange(q):
 
 
 class World:
-    N_MOD, N_SEC, N_BI, N_BLK, N_EXPR = 2, 3, 4, 6, 6
+    N_MOD, N_SEC, N_BI, N_BLK, N_EXPR = 2, 3, 6, 12, 6
 
     def __init__(self, g, layout):
         self.g = g
@@ -144,6 +144,24 @@ class World:
         if self.m_blk[k]["bi"] is not None:
             self.bump(("bi", self.m_blk[k]["bi"]), 2)
 
+    def op_blk_off2(self, op):
+        """two edits of one block with no lookup in between"""
+        k = self._blk(op)
+        for v in (op["v"], op["w"]):
+            self.blks[k].offset = v
+            self.m_blk[k]["off"] = v
+            if self.m_blk[k]["bi"] is not None:
+                self.bump(("bi", self.m_blk[k]["bi"]), 2)
+
+    def op_bi_addr2(self, op):
+        k = op["k"] % len(self.bis)
+        for v in (op["v"], op["w"]):
+            old = self.m_bi[k]["addr"]
+            self.bis[k].address = v
+            self.m_bi[k]["addr"] = v
+            if self.m_bi[k]["sec"] is not None:
+                self.bump(("sec", self.m_bi[k]["sec"]), (old is not None) + (v is not None))
+
     def op_blk_size(self, op):
         k = self._blk(op)
         self.blks[k].size = op["v"]
@@ -173,8 +191,52 @@ class World:
             self.bump(("bi", p), 1)
         self.m_blk[k]["bi"] = p
 
+    def op_blk_bulk(self, op):
+        """several blocks moved into one interval by a single blocks.update()"""
+        if not self.blks:
+            raise Skip()
+        p = op["p"] % len(self.bis)
+        ks = list(dict.fromkeys(k % len(self.blks) for k in op.get("ks", [])))
+        if not ks:
+            raise Skip()
+        args = [self.blks[k] for k in ks]
+        if op.get("how", 0) % 2:
+            self.bis[p].blocks.update(args[: len(args) // 2], args[len(args) // 2 :])
+        else:
+            self.bis[p].blocks.update(iter(args))
+        for k in ks:
+            old = self.m_blk[k]["bi"]
+            if old == p:
+                continue
+            if old is not None:
+                self.bump(("bi", old), 1)
+            self.bump(("bi", p), 1)
+            self.m_blk[k]["bi"] = p
+
+    def op_bi_bulk(self, op):
+        """several intervals moved into one section by a single update() / |="""
+        p = op["p"] % len(self.secs)
+        ks = list(dict.fromkeys(k % len(self.bis) for k in op.get("ks", [])))
+        if not ks:
+            raise Skip()
+        args = [self.bis[k] for k in ks]
+        if op.get("how", 0) % 2:
+            self.secs[p].byte_intervals.update(args)
+        else:
+            self.secs[p].byte_intervals |= dict.fromkeys(args).keys()
+        for k in ks:
+            old = self.m_bi[k]["sec"]
+            if old == p:
+                continue
+            has = self.m_bi[k]["addr"] is not None
+            if old is not None and has:
+                self.bump(("sec", old), 1)
+            if has:
+                self.bump(("sec", p), 1)
+            self.m_bi[k]["sec"] = p
+
     def op_blk_new(self, op):
-        if len(self.blks) >= 10:
+        if len(self.blks) >= 16:
             raise Skip()
         self.new_block(op["p"], op["off"], op["size"], op.get("code", True))
 
